@@ -10,7 +10,18 @@ use serde::{Deserialize, Serialize};
 #[derive(Clone, Debug, Serialize, Deserialize)]
 pub enum Case {
     /// polynomial with (re, im) coefficients in ascending order; `complex=false` uses f64 and ignores im
-    Poly { complex: bool, coef: Vec<(f64, f64)>, x: f64, h: f64 },
+    /// `mag_exp`: all coefficients times 10^mag_exp (both formulas are homogeneous in f: no absolute threshold may
+    /// enter); `im_exp`: the imaginary parts additionally times 10^im_exp (a weakly complex function)
+    Poly {
+        complex: bool,
+        coef: Vec<(f64, f64)>,
+        x: f64,
+        h: f64,
+        #[serde(default)]
+        mag_exp: f64,
+        #[serde(default)]
+        im_exp: f64,
+    },
     /// A sin(a x + phi) + B exp(b x)
     Smooth { amp: f64, a: f64, phi: f64, bmp: f64, b: f64, x: f64, h: f64 },
     /// linearity: D[alpha f + beta g] = alpha D[f] + beta D[g], f polynomial, g = sin(a x)+exp(b x)
@@ -33,7 +44,15 @@ const K2: f64 = 128.0; // rounding constant, second derivative: K2 * eps * S / h
 pub fn run_case(case: &Case) -> Outcome {
     let mut o = Obs::new();
     match case {
-        Case::Poly { complex, coef, x, h } => {
+        Case::Poly { complex, coef, x, h, mag_exp, im_exp } => {
+            let (fr, fi) = (10f64.powf(*mag_exp), 10f64.powf(*mag_exp + *im_exp));
+            let coef: &Vec<(f64, f64)> = &coef.iter().map(|&(r, i)| (r * fr, i * fi)).collect();
+            if *mag_exp != 0.0 {
+                o.label("scaled-magnitude");
+            }
+            if *im_exp != 0.0 && *complex {
+                o.label("weakly-complex");
+            }
             let (x, hs) = (*x, *h);
             // a negative step is a backward step: both formulas are even in h; the bounds use |h|
             let h = hs.abs();
@@ -65,8 +84,12 @@ pub fn run_case(case: &Case) -> Outcome {
             let e1 = d1 - t1;
             let pred1 = -t5 * (h.powi(4) / 30.0);
             let ratio1;
+            // x and h are real: real and imaginary parts go through the formulas separately, each with its own scale
+            let s_re = abs_scale_c(&cc.iter().map(|z| c(z.re, 0.0)).collect::<Vec<_>>(), x.abs() + 2.0 * h);
+            let s_im = abs_scale_c(&cc.iter().map(|z| c(z.im, 0.0)).collect::<Vec<_>>(), x.abs() + 2.0 * h);
             if deg <= 5 {
-                ratio1 = ratio((e1 - pred1).norm(), r1);
+                let d = e1 - pred1;
+                ratio1 = ratio((e1 - pred1).norm(), r1).max(ratio(d.re.abs(), K1 * EPS * s_re / h + 1e-300)).max(ratio(d.im.abs(), K1 * EPS * s_im / h + 1e-300));
                 if !(ratio1 <= 1.0) {
                     return o.fail(format!("first derivative of degree-{deg} polynomial: D f - f' = {e1:e}, predicted {pred1:e}, rounding allowance {r1:e}"));
                 }
@@ -85,7 +108,8 @@ pub fn run_case(case: &Case) -> Outcome {
             let ratio2;
             if deg <= 5 {
                 let pred2 = t4 * (h * h / 12.0);
-                ratio2 = ratio((e2 - pred2).norm(), r2);
+                let d = e2 - pred2;
+                ratio2 = ratio((e2 - pred2).norm(), r2).max(ratio(d.re.abs(), K2 * EPS * s_re / (h * h) + 1e-300)).max(ratio(d.im.abs(), K2 * EPS * s_im / (h * h) + 1e-300));
                 if !(ratio2 <= 1.0) {
                     return o.fail(format!("second derivative of degree-{deg} polynomial: D2 f - f'' = {e2:e}, predicted {pred2:e}, allowance {r2:e}"));
                 }
@@ -185,8 +209,8 @@ fn step() -> BoxedStrategy<f64> {
 }
 
 fn strategy(_t: Tier) -> BoxedStrategy<Case> {
-    let poly = (any::<bool>(), coef_strategy(6), gen::fl(-3.0, 3.0), step())
-        .prop_map(|(complex, coef, x, h)| Case::Poly { complex, coef, x, h });
+    let poly = (any::<bool>(), coef_strategy(6), gen::fl(-3.0, 3.0), step(), (prop_oneof![3 => Just(0.0), 1 => gen::fl(-30.0, 10.0)], prop_oneof![3 => Just(0.0), 1 => gen::fl(-12.0, -3.0)]))
+        .prop_map(|(complex, coef, x, h, (mag_exp, im_exp))| Case::Poly { complex, coef, x, h, mag_exp, im_exp });
     let smooth = (gen::fl(-2.0, 2.0), gen::fl(0.2, 3.0), gen::fl(0.0, 6.0), gen::fl(-2.0, 2.0), gen::fl(-1.5, 1.5), gen::fl(-3.0, 3.0), step())
         .prop_map(|(amp, a, phi, bmp, b, x, h)| Case::Smooth { amp, a, phi, bmp, b, x, h });
     let lin = (
@@ -210,14 +234,14 @@ pub fn run(opts: &Opts) -> i32 {
             for complex in [false, true] {
                 let mut coef = vec![(0.0, 0.0); k + 1];
                 coef[k] = (1.0, if complex { -0.5 } else { 0.0 });
-                spec.enumerated.push(Case::Poly { complex, coef, x, h });
+                spec.enumerated.push(Case::Poly { complex, coef, x, h, mag_exp: 0.0, im_exp: 0.0 });
             }
         }
     }
     spec.cases = opts.tier.pick(600_000, 20_000_000);
     spec.essential = vec![("deg4", 0.02), ("deg5", 0.02), ("deg3", 0.02), ("complex", 0.1), ("smooth", 0.05), ("linear", 0.05)];
     spec.rule = format!(
-        "generated: polynomials of degree 0..6 (real and complex coefficients in [-3,3]), x in [-3,3], |h| in 10^[-3,-0.3] with a quarter of the steps negative (both formulas are even in h); oracle: exact term-wise derivative; D f - f' must equal -h^4 f^(5)(x)/30 (zero up to degree 4) within {K1} eps S/h, D2 f - f'' must equal h^2 f^(4)(x)/12 (zero up to degree 3) within {K2} eps S/h^2, S = sum|c_k|(|x|+2h)^k; degree 6 and A sin(ax+phi)+B exp(bx): classical remainder bounds; linearity of both formulas. Non-trivial = polynomial degree >= 2, every smooth and linearity case. Distinct = distinct case JSON."
+        "generated: polynomials of degree 0..6 (real and complex coefficients in [-3,3]; a quarter of the cases times a common factor 10^[-30,10], a quarter of the complex cases with imaginary parts times 10^[-12,-3]), x in [-3,3], |h| in 10^[-3,-0.3] with a quarter of the steps negative (both formulas are even in h); oracle: exact term-wise derivative; D f - f' must equal -h^4 f^(5)(x)/30 (zero up to degree 4) within {K1} eps S/h, D2 f - f'' must equal h^2 f^(4)(x)/12 (zero up to degree 3) within {K2} eps S/h^2, S = sum|c_k|(|x|+2h)^k, real and imaginary parts each also within their own S (x and h are real: the two parts go through the formulas separately); degree 6 and A sin(ax+phi)+B exp(bx): classical remainder bounds; linearity of both formulas. Non-trivial = polynomial degree >= 2, every smooth and linearity case. Distinct = distinct case JSON."
     );
     spec.assumptions = vec!["libm sin/exp accurate to a few ulp".into(), "harness Horner evaluation error is covered by the rounding allowance".into()];
     run_spec(spec, opts)
